@@ -120,8 +120,8 @@ def run(rep, tier, seed, budget):
         stoi = {s: i for i, s in enumerate(vocab)}
         itos = {i: s for s, i in stoi.items()}
         et = ["label", "one_hot"][enc]
-        e = ctx.eu.selfies_to_encoding(x, stoi, pad_to_len=pad, enc_type=et)
-        back = ctx.eu.encoding_to_selfies(e, itos, enc_type=et)
+        e = symstr.robust_call(ctx.eu.selfies_to_encoding, x, stoi, pad_to_len=pad, enc_type=et)
+        back = symstr.robust_call(ctx.eu.encoding_to_selfies, e, itos, enc_type=et)
         r1 = _norm(dech.run_decoder(ctx, x))
         r2 = _norm(dech.run_decoder(ctx, str(back)))
         col.nontrivial((xi, str(back)))
